@@ -1777,7 +1777,22 @@ func readNextCommand(packet []byte, argsIn [][]byte, msg *Message, wr io.Writer)
 			return readNextHTTPCommand(packet, argsIn, msg, wr)
 		}
 	}
-	return redcon.ReadNextCommand(packet, args)
+	return readNextRedconCommand(packet, args)
+}
+
+// readNextRedconCommand guards redcon.ReadNextCommand, which indexes outside
+// of the packet for some malformed bulk lengths (such as "$-2"). Malformed
+// input must end that connection with a protocol error and not the process.
+func readNextRedconCommand(packet []byte, argsIn [][]byte) (
+	complete bool, args [][]byte, kind redcon.Kind, leftover []byte, err error,
+) {
+	defer func() {
+		if r := recover(); r != nil {
+			complete, args, kind, leftover = false, argsIn[:0], redcon.Redis, packet
+			err = errors.New("Protocol error: invalid bulk length")
+		}
+	}()
+	return redcon.ReadNextCommand(packet, argsIn)
 }
 
 // ReadMessages ...
